@@ -298,6 +298,31 @@ func lockCheck() {
 	// method: no Unlock/Lock in the middle of a critical section, no TryLock, no alias of mu
 	res["no-other-lock-operations"] = muRefs == 2*len(locked)
 	res["no-closures-over-state"] = closuresOK
+	// validity is judged on the monotonic clock: every time the provider compares stems
+	// from time.Now() through Add only.  In the methods of Provider and Key, in NewProvider
+	// and anywhere in provider.go no call may strip the monotonic reading or rebuild a time
+	// from wall-clock numbers.
+	strip := map[string]bool{"Round": true, "Truncate": true, "UTC": true, "Local": true, "In": true, "AddDate": true,
+		"Unix": true, "UnixNano": true, "UnixMilli": true, "UnixMicro": true, "Date": true, "Format": true,
+		"MarshalBinary": true, "MarshalText": true, "MarshalJSON": true, "Parse": true, "ParseInLocation": true,
+		"ZoneBounds": true, "Clock": true, "YearDay": true}
+	monoOK := true
+	for _, fd := range funcs {
+		_, rt := recvOf(fd)
+		file := filepath.Base(fset.Position(fd.Pos()).Filename)
+		if !(rt == "Provider" || rt == "Key" || (fd.Recv == nil && fd.Name.Name == "NewProvider") || file == "provider.go") {
+			continue
+		}
+		ast.Inspect(fd.Body, func(n ast.Node) bool {
+			if c, ok := n.(*ast.CallExpr); ok {
+				if se, ok := c.Fun.(*ast.SelectorExpr); ok && strip[se.Sel.Name] {
+					monoOK = false
+				}
+			}
+			return true
+		})
+	}
+	res["monotonic-reading-preserved"] = monoOK
 	names := make([]string, 0, len(res))
 	for n := range res {
 		names = append(names, n)
